@@ -297,6 +297,10 @@ func (s genSpec) ops(st *genState) (out []opx) {
 			out = append(out, st.txn([]model.Act{a}, true, ""))
 		}
 		out = append(out, st.txn([]model.Act{{Op: "insertkey", Key: "a", W: set(3), FailCb: true}}, false, ""))
+		// the callback of an upsert fails: for a new key and for an existing one the
+		// transaction must roll back as a whole
+		out = append(out, st.txn([]model.Act{{Op: "upsertkey", Key: "b", W: set(6), FailCb: true}}, false, ""))
+		out = append(out, st.txn([]model.Act{{Op: "querykey", Key: "s1", W: []model.Write{W("n", V(8))}}, {Op: "upsertkey", Key: "a", W: set(6), FailCb: true}}, false, ""))
 		out = append(out, st.txn([]model.Act{{Op: "insert", W: set(8), FailCb: true, Swallow: true}, {Op: "deletekey", Key: "b"}}, false, ""))
 		out = append(out, st.txn([]model.Act{{Op: "upsertkey", Key: "a", W: set(4)}, {Op: "querykey", Key: "s1", W: []model.Write{M("n", V(2))}}}, false, ""))
 	} else {
